@@ -211,6 +211,14 @@ package jsonschema
 //@   requires shaped(rvof(instance))
 //@   ensures[C02] refuse: !supported(rs.root.Schema) ==> result != nil
 
+// C01, accepting direction: what a successful validate has established about the directly asserting keywords.
+//@ pred okType(schema *Schema, instance reflect.Value) = (schema.Type != "" ==> tmatch(schema.Type, typeName(jv(instance)))) && (schema.Type == "" && !isnil(schema.Types) ==> (exists i int :: 0 <= i && i < len(schema.Types) && tmatch(schema.Types[i], typeName(jv(instance)))))
+//@ pred okConst(schema *Schema, instance reflect.Value) = schema.Const != nil ==> eqv(rvof(*schema.Const), instance)
+//@ pred okNum(schema *Schema, instance reflect.Value) = isJNum(jv(instance)) ==> (schema.Minimum != nil ==> jn(jv(instance)) >= *schema.Minimum) && (schema.Maximum != nil ==> jn(jv(instance)) <= *schema.Maximum) && (schema.ExclusiveMinimum != nil ==> jn(jv(instance)) > *schema.ExclusiveMinimum) && (schema.ExclusiveMaximum != nil ==> jn(jv(instance)) < *schema.ExclusiveMaximum)
+//@ pred okStr(schema *Schema, instance reflect.Value) = isJStr(jv(instance)) ==> (schema.MinLength != nil ==> runes(js(jv(instance))) >= *schema.MinLength) && (schema.MaxLength != nil ==> runes(js(jv(instance))) <= *schema.MaxLength)
+//@ pred okItems(schema *Schema, instance reflect.Value) = isJArr(jv(instance)) ==> (schema.MinItems != nil ==> jalen(jv(instance)) >= *schema.MinItems) && (schema.MaxItems != nil ==> jalen(jv(instance)) <= *schema.MaxItems)
+//@ pred okProps(schema *Schema, instance reflect.Value) = isJObj(jv(instance)) ==> (schema.MinProperties != nil ==> jocard(jv(instance)) >= *schema.MinProperties) && (schema.MaxProperties != nil ==> jocard(jv(instance)) <= *schema.MaxProperties)
+
 //@ contract (*state).validate(st, instance, schema, callerAnns)
 //@   requires new(st)
 //@   let rs = st.rs
@@ -230,6 +238,15 @@ package jsonschema
 //@   ensures annsOK: callerAnns != nil ==> annsOwned(callerAnns)
 //@   ensures mapsI: callerAnns != nil ==> (callerAnns.evaluatedIndexes == old(callerAnns.evaluatedIndexes) || fresh(callerAnns.evaluatedIndexes))
 //@   ensures mapsP: callerAnns != nil ==> (callerAnns.evaluatedProperties == old(callerAnns.evaluatedProperties) || fresh(callerAnns.evaluatedProperties))
+//@   let applies = !(schema.Ref != "" && st.rs.draft == 0)
+//@   let inst0 = instance
+//@   atline[C01] "// enum:" cp1 uses samejv,shaped: jv(instance) == jv(inst0) && okType(schema, instance)
+//@   atline[C01,C12] "// numbers:" cp2 uses samejv: okConst(schema, instance)
+//@   atline[C01] "// strings:" cp3 uses samejv,shaped: okNum(schema, instance)
+//@   atline[C01] "// $dynamicRef:" cp4 uses samejv,shaped: okStr(schema, instance)
+//@   atline[C01] "// objects" cp5 uses samejv,shaped,p_items: okItems(schema, instance)
+//@   atline[C01] "if callerAnns != nil {" cp6 uses samejv,shaped,p_props: okProps(schema, instance)
+//@   atreturn[C01,C12] accepted uses samejv: result == nil && applies ==> jv(instance) == jv(inst0) && okType(schema, instance) && okConst(schema, instance) && okNum(schema, instance) && okStr(schema, instance) && okItems(schema, instance) && okProps(schema, instance)
 //@   reject[C01] "type:" (schema.Type != "" && !tmatch(schema.Type, typeName(jv(instance)))) || (schema.Type == "" && !isnil(schema.Types) && (forall i int {schema.Types[i]} :: 0 <= i && i < len(schema.Types) ==> !tmatch(schema.Types[i], typeName(jv(instance)))))
 //@   reject[C01] "minimum:" isJNum(jv(instance)) && schema.Minimum != nil && jn(jv(instance)) < *schema.Minimum
 //@   reject[C01] "maximum:" isJNum(jv(instance)) && schema.Maximum != nil && jn(jv(instance)) > *schema.Maximum
@@ -260,6 +277,13 @@ package jsonschema
 //@   loopinv stackelems: new(st.stack) && fresh(st.stack) && (forall i int {st.stack[i]} :: 0 <= i && i < len(stk0) ==> st.stack[i] == old(stk0[i])) && st.stack[len(stk0)] == schema
 //@   loopinv stackrs: new(st.stack) && fresh(st.stack) && (forall i int {st.stack[i]} :: 0 <= i && i < len(st.stack) ==> inRS(rs, st.stack[i]))
 //@   loopinv anns: annsLocal(anns)
+//@   loopinv[C01] samejv: jv(instance) == jv(inst0)
+//@   loopinv[C01] p_type after "for instance.Kind() == reflect.Pointer || instance.Kind() == reflect.Interface": okType(schema, instance)
+//@   loopinv[C01,C12] p_const after "range schema.Enum": okConst(schema, instance)
+//@   loopinv[C01] p_num after "range schema.Enum": okNum(schema, instance)
+//@   loopinv[C01] p_str after "range schema.Enum": okStr(schema, instance)
+//@   loopinv[C01] p_items after "range instance.Len()": okItems(schema, instance)
+//@   loopinv[C01] p_props after "range properties(instance)#4": okProps(schema, instance)
 //@   loop "range schema.Enum"
 //@     invariant[C12] noneq: isold(schema) && isold(schema.Enum) && !ok && (forall j int {schema.Enum[j]} :: 0 <= j && j <= $idx ==> !eqv(rvof(schema.Enum[j]), instance))
 //@     exit[C12] found: isold(schema) && isold(schema.Enum) && ($idx < len(schema.Enum) ==> 0 <= $idx && eqv(rvof(schema.Enum[$idx]), instance))
